@@ -3,13 +3,17 @@
 
   Character level: CDATA-section splitting and `unescaped_gt`, for every string.
   Tree level (Pretty): `C14_pretty_content*` — indentation only adds fields to the token stream, it
-  never changes a token; `C14_pretty_where_*` — where the `Pretty` stack machine grants
-  indentation / a newline (full strength is false: see `C14_pretty_where_Statement`).
+  never changes a token; `C14_pretty_where*` — the `Pretty` stack machine grants indentation / a
+  newline only outside mixed / suppressed content and outside `xml:space="preserve"` scope, at
+  every depth (full strength since /repo 98e9b00), on stacks and read off the tree.
+  Doctype: `C14_doctype_*` — the doctype names the root element as its start tag spells it
+  (since /repo 5f64b4d).
 -/
 import XotModel.Lemmas.Entity
 import XotModel.Lemmas.Output
 import XotModel.Lemmas.Pretty
 import XotModel.Lemmas.PrettyWhere
+import XotModel.Lemmas.Doctype
 
 namespace XotModel.Props
 open XotModel XotModel.Gen
@@ -155,48 +159,28 @@ theorem C14_pretty_where_entry (sup : List Nat) (ps : PStack) (name : Nat) (ks :
     · have : name ∉ sup := by simpa using hs
       simp [hi, this]
 
-/-- Full-strength placement rule for indentation: none inside a `preserve` scope.  FALSE for the
-    code as written. -/
-def C14_pretty_where_Statement : Prop :=
-  ∀ ps : PStack, ps.inSpacePreserve = true → ps.getIndentation = 0
+/-- Placement rule, full strength (all stacks): indentation or a newline is granted only outside
+    mixed / suppressed content and outside the scope of `xml:space="preserve"` (the innermost
+    `preserve` / `default` among the open elements decides) — at any depth. -/
+theorem C14_pretty_where (ps : PStack) (h : ps.getIndentation > 0 ∨ ps.getNewline = true) :
+    ps.inMixed = false ∧ ps.inSpacePreserve = false := by
+  rcases h with h | h
+  · exact ⟨getIndentation_pos h, getIndentation_pos_preserve h⟩
+  · exact ⟨getNewline_true h, getNewline_true_preserve h⟩
 
-/-- What the code does instead: inside a `preserve` scope the indentation is frozen at the value it
-    had where the `preserve` element was opened (`below` = the entries under the `Preserve` entry). -/
-theorem C14_pretty_where_frozen (ps : PStack) (h : ps.inSpacePreserve = true) (hm : ps.inMixed = false) :
-    ∃ a below : PStack, ps = a ++ StackEntry.unmixed .preserve :: below ∧ PStack.AllEmpty a ∧
-      ps.getIndentation = below.getIndentation := by
-  obtain ⟨a, below, hs, ha⟩ := PStack.inSpacePreserve_shape h
-  refine ⟨a, below, hs, ha, ?_⟩
-  have hb : PStack.inMixed below = false := by
-    rw [hs, PStack.inMixed_append] at hm
-    have h2 : PStack.inMixed (StackEntry.unmixed .preserve :: below) = false := by
-      cases h1 : PStack.inMixed a <;> simp_all
-    simpa [PStack.inMixed] using h2
-  simp only [PStack.getIndentation, hm, hb]
-  rw [hs, PStack.foldl_indentStep_preserve ha]
+/-- The end tag of an element with children is indented only if the element itself is neither
+    mixed / suppressed nor in `preserve` scope (decided before its entry is popped). -/
+theorem C14_pretty_where_endtag (sup : List Nat) (ps : PStack) (node : Tree) (name : Nat)
+    (hc : node.firstChild?.isSome = true)
+    (h : (prettify sup ps node (.endTag name)).2.1 > 0) :
+    ps.inMixed = false ∧ ps.inSpacePreserve = false := by
+  simp only [prettify, hc, if_true] at h
+  cases hm : ps.inMixed <;> cases hp : ps.inSpacePreserve <;> simp [hm, hp] at h ⊢
 
-/-- `_partial`: the rule holds when the `preserve` element is the outermost open element with
-    children (depth 0) — the only situation the crate's snapshots cover. -/
-theorem C14_pretty_where_partial (a : PStack) (ha : PStack.AllEmpty a) :
-    PStack.getIndentation (a ++ [StackEntry.unmixed .preserve]) = 0 := by
-  have hm : PStack.inMixed (a ++ [StackEntry.unmixed .preserve]) = false := by
-    rw [PStack.inMixed_append, PStack.inMixed_allEmpty ha]; rfl
-  simp only [PStack.getIndentation, hm]
-  rw [PStack.foldl_indentStep_preserve ha]
-  rfl
-
-/-- The defect, as a closed witness: `<doc><a xml:space="preserve"><b>…` — the stack when `<b` is
-    written is `[Preserve(a), Empty(doc)]`: in `preserve` scope, indentation 1. -/
-theorem C14_pretty_where_false : ¬ C14_pretty_where_Statement := by
-  intro h
-  have := h [StackEntry.unmixed .preserve, StackEntry.unmixed .empty] (by decide)
-  revert this
-  decide
-
-/-- The same witness end to end: pretty-printing `<d><a xml:space="preserve"><b><c/></b></a></d>`
-    (names: d=5, a=2, b=3, c=4; `xml:space` is name 0).  Per token: node, indentation, newline.
-    `<b` (node 0.0.1), `<c` and `</b>`, `</a>` are indented by one level inside the `preserve`
-    element: the implementation prints `<a xml:space="preserve">  <b>  <c/>  </b>  </a>`. -/
+/-- The former witness of the defect, end to end: pretty-printing
+    `<d><a xml:space="preserve"><b><c/></b></a></d>` (names: d=5, a=2, b=3, c=4; `xml:space` is
+    name 0).  Per token: node, indentation, newline — nothing inside the `preserve` element `a`
+    (node 0.0) is indented, its own end tag included, and no newline is written inside it. -/
 example :
     (prettyTokens {} {} []
       (.node .document [.node (.element 5) [.node (.element 2)
@@ -204,36 +188,79 @@ example :
       ).okValue?.map (fun l => l.map (fun k => (k.1, k.2.2.indentation, k.2.2.newline)))
     = some [([0], 0, false), ([0], 0, true),
             ([0, 0], 1, false), ([0, 0], 0, false), ([0, 0], 0, false),
-            ([0, 0, 1], 1, false), ([0, 0, 1], 0, false),
-            ([0, 0, 1, 0], 1, false), ([0, 0, 1, 0], 0, false), ([0, 0, 1, 0], 0, false),
-            ([0, 0, 1], 1, false), ([0, 0], 1, true), ([0], 0, true)] := by decide
+            ([0, 0, 1], 0, false), ([0, 0, 1], 0, false),
+            ([0, 0, 1, 0], 0, false), ([0, 0, 1, 0], 0, false), ([0, 0, 1, 0], 0, false),
+            ([0, 0, 1], 0, false), ([0, 0], 0, true), ([0], 0, true)] := by decide
 
 /-! ### The doctype writer -/
 
-/-- Full-strength rule for the doctype (XML 1.0 VC "Root Element Type"): the name written in
-    `<!DOCTYPE name …>` is the name written in the root element's start tag.  FALSE for the code as
-    written: the doctype name is computed with `prefix_for_namespace` (first binding in declaration
-    order), the start tag with `FullnameSerializer::element_fullname` (default namespace
-    preferred, else the most recent binding). -/
-def C14_doctype_Statement : Prop :=
-  ∀ (env : Env) (name : Nat) (ks : List Tree) (dn : Str) (toks : List (Path × Output × OutputToken)),
-    doctypeName env (.node (.element name) ks) [] = .ok dn →
-    tokens env {} (.node (.element name) ks) [] = .ok toks →
-    (toks.head?.map (fun k => k.2.2.text)) = some (fmt Gen.fmtStartTagOpen [dn])
+/-- XML 1.0 VC "Root Element Type", element-rooted serialisation: the name written in
+    `<!DOCTYPE name …>` is the name written in the start tag of the element — the doctype writer
+    spells it with the stack the serialiser holds there (for arbitrary escaping functions and
+    token parameters). -/
+theorem C14_doctype_element (esc : Escapers) (env : Env) (pr : TokenParams) (t : Tree) (start : Path)
+    (name : Nat) (ks : List Tree) (hat : t.at? start = some (.node (.element name) ks))
+    (dn : Str) (toks : List (Path × Output × OutputToken))
+    (hd : doctypeName env t start = .ok dn)
+    (ht : tokensWith esc env pr t start = .ok toks) :
+    toks.head?.map (fun k => (k.1, k.2.1, k.2.2.text)) =
+      some (start, Output.startTagOpen name, fmt Gen.fmtStartTagOpen [dn]) := by
+  obtain ⟨rest, hanc⟩ := ancestorsOrSelf_of_at? t start _ hat
+  have hscope : namespacesInScope t start = some (namespacesInScopeChain (.node (.element name) ks :: rest)) := by
+    simp [namespacesInScope, hanc]
+  -- the doctype name
+  unfold doctypeName at hd
+  simp only [hat, Tree.value] at hd
+  have hstack : doctypeStack t start (.node (.element name) ks) =
+      (initStack t start).push (Tree.node (.element name) ks).nsDecls := by
+    simp [doctypeStack, initStack]
+  rw [hstack] at hd
+  -- the first token
+  unfold tokensWith at ht
+  have hg : genOutputs t start =
+      genNode (namespacesInScopeChain (.node (.element name) ks :: rest)) true start (.node (.element name) ks) := by
+    simp [genOutputs, hat, hscope]
+  rw [hg, genNode_element] at ht
+  simp only [List.cons_append, List.nil_append, renderAllWith, renderAtWith, hat, renderXmlWith] at ht
+  cases hf : ((initStack t start).push (Tree.node (.element name) ks).nsDecls).elementFullname env name with
+  | error e => simp [hf] at hd
+  | ok full =>
+    simp only [hf] at hd ht
+    cases hd
+    split at ht
+    · rename_i l hl
+      split at hl
+      · cases hl
+        cases ht
+        rfl
+      · cases hl
+      · cases hl
+    · cases ht
+    · cases ht
 
-/-- Closed witness: `<a xmlns:r="u" xmlns:q="u"/>` with `a` in namespace `u` serialises as
-    `<!DOCTYPE r:a SYSTEM "d">` followed by `<q:a xmlns:r="u" xmlns:q="u"/>`. -/
-theorem C14_doctype_false : ¬ C14_doctype_Statement := by
-  intro h
-  have := h ⟨[[], ['X'], ['u']], [[], ['x','m','l'], ['p'], ['q'], ['r']], [(['a'], 2)]⟩ 0
-    [.node (.namespace 4 2) [], .node (.namespace 3 2) []] ['r', ':', 'a']
-    [([], .startTagOpen 0, ⟨false, ['<','q',':','a']⟩), ([], .pfx 1 1, ⟨false, []⟩),
-     ([], .pfx 4 2, ⟨true, ['x','m','l','n','s',':','r','=','"','u','"']⟩),
-     ([], .pfx 3 2, ⟨true, ['x','m','l','n','s',':','q','=','"','u','"']⟩),
-     ([], .startTagClose, ⟨false, ['/','>']⟩), ([], .endTag 0, ⟨false, []⟩)]
-    (by decide) (by decide)
-  revert this
-  decide
+/-- Document-rooted serialisation: the stack the doctype writer builds for the document element
+    (`namespaces_in_scope(element)` + the element's declarations) has the same top frame as the
+    stack the serialiser holds after pushing that element's declarations onto
+    `namespaces_in_scope(document)`; `element_fullname` reads only the top frame, and the events
+    before the document element (comments, PIs) leave the stack alone (`C10_stack_traversal`). -/
+theorem C14_doctype_document (t : Tree) (start : Path) (i : Nat) (doc el : Tree)
+    (hdoc : t.at? start = some doc) (hel : t.at? (start ++ [i]) = some el) :
+    (doctypeStack t (start ++ [i]) el).top = ((initStack t start).push el.nsDecls).top := by
+  obtain ⟨rest, hanc⟩ := ancestorsOrSelf_of_at? t start doc hdoc
+  have hanc2 := ancestorsOrSelf_child t start i _ el hanc hel
+  have h1 : namespacesInScope t start = some (namespacesInScopeChain (doc :: rest)) := by
+    simp [namespacesInScope, hanc]
+  have h2 : namespacesInScope t (start ++ [i]) = some (namespacesInScopeChain (el :: doc :: rest)) := by
+    simp [namespacesInScope, hanc2]
+  unfold doctypeStack initStack
+  rw [h1, h2]
+  simp only [Option.getD_some, FStack.new, FStack.push]
+  by_cases he : el.nsDecls.isEmpty = true
+  · simp only [he, if_true, FStack.top, List.headD_cons]
+    have hnil : el.nsDecls = [] := by simpa using he
+    simp [namespacesInScopeChain, traverseChain, hnil, traverseDecls]
+  · simp only [he, FStack.top, List.headD_cons]
+    exact fullnameInfoNew_inScope_child el (doc :: rest)
 
 /-! ### The same rules read off the tree -/
 
@@ -282,6 +309,21 @@ theorem C14_pretty_where_tree_mixed (esc : Escapers) (env : Env) (pr : TokenPara
     fun hor => hne ((entryFor_mixed_iff sup a name hv).mpr hor)
   simp only [not_or, Bool.not_eq_true] at h3
   exact h3
+
+/-- `xml:space="preserve"` on trees, full strength: a token is indented only if the entries of the
+    open elements its whitespace lands in (its own element's included for an end tag) are not in
+    `preserve` scope, and is followed by a newline only if the entries the newline lands in (its
+    own element's included for `>`) are not. -/
+theorem C14_pretty_where_tree_preserve (esc : Escapers) (env : Env) (pr : TokenParams) (sup : List Nat)
+    (t : Tree) (start : Path) (n : Tree) (inScope : List (Nat × Nat)) (hat : t.at? start = some n)
+    (hs : namespacesInScope t start = some inScope)
+    (ks : List (Path × Output × PrettyOutputToken))
+    (h : prettyTokensWith esc env pr sup t start = .ok ks)
+    (k : Path × Output × PrettyOutputToken) (hk : k ∈ ks) :
+    ∃ rel, k.1 = start ++ rel ∧
+      (k.2.2.indentation > 0 → PStack.inSpacePreserve (pentriesFor sup k.2.1 n rel) = false) ∧
+      (k.2.2.newline = true → PStack.inSpacePreserve (pentriesNewline sup k.2.1 n rel) = false) :=
+  pretty_where_notPreserve sup t esc env pr start n inScope hat hs ks h k hk
 
 /-- Non-vacuity: in `<d><a>t<b/></a></d>` (d=5, a=2, b=3) tokens do receive whitespace (`>` of `d`
     gets a newline, `<a` indentation 1) while nothing inside the mixed element `a` does. -/
